@@ -728,6 +728,9 @@ fn run_case(m: &mut Model, rep: &mut Report, stream: &str, chunk: usize, max: Op
             }
         };
         let bg = matches!(op, Op::BgGc { .. });
+        if bg && !quiet {
+            rep.hit("op.background_gc");
+        }
         r.restamp(t, rp!(), &input);
         let tag = line.split(' ').next().unwrap_or("?").to_string();
         let res_class = imp.split(' ').take(if imp.starts_with("err") { 2 } else { 1 }).collect::<Vec<_>>().join("_");
@@ -1048,11 +1051,12 @@ fn gen_seq(r: &mut Rng, c: usize, len: usize, writers: bool, damage: bool, api: 
                 5 | 6 => Op::Touch(pick_art(r, made), r.below(7) as u8),
                 7 | 8 => Op::GcBatch { back: *r.pick(&[0, 0, 1, 3]), b: 1 + r.below(4) as usize },
                 9 if r.chance(1, 6) => Op::BgGc { back: *r.pick(&[0, 0, 2]) },
-                10 | 11 | 9 if rd_open.len() < 3 => {
+                10 | 11 | 9 if rd_open.len() < 3 && made > 0 => {
                     let x = next_r;
                     next_r += 1;
                     rd_open.push(x);
-                    Op::ROpen(x, pick_art(r, made))
+                    // mostly an artifact that was created (it may have been deleted since, or its put may have failed)
+                    Op::ROpen(x, if r.chance(1, 10) { made + 1 } else { r.below(made as u64) as u32 })
                 }
                 12 | 13 | 14 | 15 if !rd_open.is_empty() => {
                     let x = *r.pick(&rd_open);
@@ -1065,7 +1069,7 @@ fn gen_seq(r: &mut Rng, c: usize, len: usize, writers: bool, damage: bool, api: 
                     let i = r.below(rd_open.len() as u64) as usize;
                     Op::RDrop(rd_open.remove(i))
                 }
-                _ => Op::Stats,
+                _ => Op::Get(pick_art(r, made)),
             };
             ops.push(op);
             continue;
@@ -1200,9 +1204,30 @@ fn directed(m: &mut Model, rep: &mut Report) {
         ("open-writer-vs-full-gc", 2, None, vec![Op::WOpen(0), Op::WWrite(0, vec![1, 2, 3]), Op::FullGc, Op::WFinish(0), Op::Get(0)]),
         ("open-writer-vs-repair", 2, None, vec![Op::Put(vec![5, 5]), Op::WOpen(0), Op::WWrite(0, vec![1, 2, 3, 4]), Op::Repair, Op::WFinish(0), Op::Get(1)]),
         ("open-writer-vs-gc", 2, None, vec![Op::Put(vec![1, 2]), Op::Delete(0), Op::WOpen(0), Op::WWrite(0, vec![1, 2, 3]), Op::Gc { back: 0, age: 0 }, Op::WFinish(0), Op::Get(1)]),
+        // streaming reader: every buffer size around the chunk size; other artifacts deleted and collected between reads
+        ("reader-buffers", 3, None, vec![
+            Op::Put(vec![1, 2, 3, 4, 5, 6, 7]), Op::Put(vec![1, 2, 3, 9]), Op::ROpen(0, 0), Op::RRead(0, 1), Op::RRead(0, 0), Op::RRead(0, 5), Op::Delete(1),
+            Op::Gc { back: 0, age: 0 }, Op::RRead(0, 3), Op::RRead(0, 2), Op::FullGc, Op::RRead(0, 4), Op::RRead(0, 4), Op::RVerify(0), Op::RAll(0), Op::RNext(0),
+            Op::ROpen(1, 0), Op::RNext(1), Op::RRead(1, 2), Op::RAll(1), Op::RRead(1, 2), Op::RDrop(1), Op::ROpen(2, 7),
+        ]),
+        // a reader outlives its artifact: the chunks go with the next collection
+        ("reader-vs-delete", 2, None, vec![
+            Op::Put(vec![1, 2, 3, 4, 5]), Op::ROpen(0, 0), Op::RRead(0, 1), Op::Delete(0), Op::RRead(0, 1), Op::RNext(0), Op::Gc { back: 0, age: 0 }, Op::RNext(0), Op::RRead(0, 9), Op::RVerify(0), Op::RAll(0),
+        ]),
+        ("queries", 2, None, vec![
+            Op::Stats, Op::Orphans, Op::Put(vec![1, 2, 3, 4]), Op::Put(vec![1, 2, 5]), Op::Exists(0), Op::Exists(2), Op::Stats, Op::CExist(0), Op::CExist(5), Op::VChunk { sel: 0 }, Op::VChunk { sel: 3 },
+            Op::Abandon(vec![vec![8, 8, 8]]), Op::Stats, Op::Orphans, Op::Delete(0), Op::Stats, Op::Orphans, Op::VChunk { sel: 1 }, Op::Touch(1, 0), Op::Touch(1, 1), Op::Touch(1, 3), Op::Touch(1, 5), Op::Touch(1, 6),
+            Op::Touch(1, 2), Op::Touch(1, 4), Op::Touch(0, 0), Op::Get(1), Op::Verify(1), Op::Delete(1), Op::Stats, Op::FullGc, Op::Stats,
+        ]),
+        // gc_cycle with a batch below the chunk count, then the background task finishes the job
+        ("gc-batches", 1, None, vec![
+            Op::Put(vec![1, 2, 3, 4, 5]), Op::Put(vec![4, 5, 6]), Op::Delete(0), Op::GcBatch { back: 0, b: 1 }, Op::GcBatch { back: 0, b: 2 }, Op::Stats, Op::GcBatch { back: 0, b: 9 }, Op::Stats,
+            Op::Put(vec![7, 8]), Op::Delete(1), Op::BgGc { back: 5 }, Op::Stats, Op::BgGc { back: 0 }, Op::Stats, Op::Get(2),
+        ]),
         ("verify-damage", 2, None, vec![
             Op::Put(vec![1, 2, 3, 4]), Op::Put(vec![3, 4, 5]), Op::Verify(0), Op::Corrupt { sel: 1, data: vec![3, 5] }, Op::Verify(0), Op::Verify(1), Op::Get(0),
-            Op::DropChunk { sel: 0 }, Op::Verify(0), Op::Verify(1), Op::Repair,
+            Op::DropChunk { sel: 0 }, Op::Verify(0), Op::Verify(1), Op::VChunk { sel: 0 }, Op::VChunk { sel: 1 }, Op::VChunk { sel: 2 }, Op::VChunk { sel: 3 }, Op::CExist(0), Op::CExist(1),
+            Op::ROpen(0, 0), Op::RRead(0, 1), Op::RAll(0), Op::RVerify(0), Op::ROpen(1, 1), Op::RVerify(1), Op::Orphans, Op::Stats, Op::Repair,
         ]),
     ];
     for (name, c, max, ops) in cases {
